@@ -40,6 +40,10 @@ VOXEL_ORDERS = ['', 'LAS', 'RAS', 'LPI', 'RPI', 'ASL', 'SAL', 'LAI']
 
 ERRMAP = {'InvalidStackError': 'EInvalidStack', 'IncongruentImageError': 'EIncongruent',
           'ImageCollisionError': 'ECollision', 'NonImageDataSetError': 'ENonImage', 'TypeError': 'EType'}
+# an add whose DicomOrdering.get_ordinate raises ValueError (value not in abs_ordering) has no counterpart in the
+# model (ordinates are given evaluated): such an add must leave the stack unchanged, it is checked by the oracle and
+# left out of the model's history
+ADD_ONLY_ERR = {'ValueError': 'EValue'}
 
 
 def cross(a, b):
@@ -201,7 +205,13 @@ def abstract_file(dcmstack, spec, ds, case):
             ordg = make_ordering(dcmstack, o)
             if isinstance(ordg, str):
                 ordg = dcmstack.DicomOrdering(ordg)
-            a[nm] = fr(_num(ordg.get_ordinate(meta)))
+            try:
+                a[nm] = fr(_num(ordg.get_ordinate(meta)))
+            except ValueError as e:
+                if 'is not in list' not in str(e):
+                    raise
+                a[nm] = None
+                a['bad_ordinate'] = True
     a['meta'] = [[k, fr(_num(meta.get(k)))] for k in dcmstack.DicomStack.sort_guesses if meta.get(k) is not None]
     a['tr'] = fr(_num(meta.get('RepetitionTime')))
     a['phase'] = meta.get('InPlanePhaseEncodingDirection')
@@ -267,9 +277,12 @@ class Runner(object):
                 raise ValueError('unknown op %r' % (op,))
         except Exception as e:
             nm = type(e).__name__
-            if nm not in ERRMAP:
+            if nm in ERRMAP:
+                out['r'] = ERRMAP[nm]
+            elif op[0] == 'add' and nm in ADD_ONLY_ERR:
+                out['r'] = ADD_ONLY_ERR[nm]
+            else:
                 raise
-            out['r'] = ERRMAP[nm]
         out.update(self.state())
         return out
 
@@ -370,10 +383,11 @@ def coq_obs(o):
 def coq_case(case, obs):
     if not isinstance(obs, dict) or 'crash' in obs or 'ops' not in obs:
         return '(mkcase false false [] [(None, None, [0%nat], false)])'      # never matches: flags the crash
+    keep = [(op, o) for op, o in zip(case['ops'], obs['ops']) if not (op[0] == 'add' and o['r'] == 'EValue')]
     return '(mkcase %s %s %s %s)' % (
         cbool(case.get('time_order') is not None), cbool(case.get('vector_order') is not None),
-        clist(coq_op(case, obs, op) for op in case['ops']),
-        clist(coq_obs(o) for o in obs['ops']))
+        clist(coq_op(case, obs, op) for op, o in keep),
+        clist(coq_obs(o) for op, o in keep))
 
 
 # ------------------------------------------------------------------------------------------------
@@ -486,6 +500,9 @@ def expected_add(files, order, cfg_time, cfg_vec):
             if not ok:
                 out.append('EIncongruent')
                 continue
+        if f.get('bad_ordinate'):
+            out.append('EValue')
+            continue
         cell = (F(f['vec']) if cfg_vec else None, F(f['time']) if cfg_time else None, F(f['pos']))
         if (cfg_time or cfg_vec) and cell in cells:
             out.append('ECollision')
@@ -500,7 +517,7 @@ def expected_add(files, order, cfg_time, cfg_vec):
 # ------------------------------------------------------------------------------------------------
 # random stacks
 
-def rand_config(rng, tier, want=None):
+def rand_config(rng, tier, want=None, force_abs=False):
     """-> dict(mode, S, T, V, orient, direction, gap, origin, rows, cols, ps, time_order, vector_order,
               tagrules, consts)"""
     big = tier != 'quick'
@@ -521,17 +538,17 @@ def rand_config(rng, tier, want=None):
            'time_order': None, 'vector_order': None, 'tagrules': {}, 'consts': {}}
     rules = {}
     if mode in ('time', 'timevec'):
-        key = rng.choice(['EchoTime', 'TriggerTime', 'AcquisitionNumber', 'AcquisitionTime', 'InversionTime'])
+        key = rng.choice(['EchoTime', 'TriggerTime', 'AcquisitionNumber', 'InversionTime'] + ([] if force_abs else ['AcquisitionTime']))
         rules[key] = rng.choice(['t', 't', 'trev', 'tv'])
         cfg['time_order'] = {'key': key, 'abs': None}
-        if S >= 2 and rng.random() < 0.25:
+        if S >= 2 and rng.random() < 0.25 and not force_abs:
             # staggered time ordinate: the r lowest positions of volume t carry the value of volume t+1, so a run
             # of equal time values straddles every volume boundary (the code accepts this: only the cut of the
             # sorted list into runs of S is checked)
             r = rng.randrange(1, S)
             asc = cfg['direction'] == 1
             rules[key] = _Stag(S, r, asc)
-        elif rng.random() < 0.2 and key not in TM_TAGS:
+        elif (force_abs or rng.random() < 0.2) and key not in TM_TAGS:
             rule = rules[key]
             vals = sorted(set(tag_value(key, {'t': 2 + 3 * t, 'trev': 20 - 3 * t, 'tv': 1 + t + T * v}[rule])
                               for t in range(T) for v in range(V)))
@@ -575,7 +592,7 @@ def pos_key(f):
 
 DEFECTS = ['none', 'none', 'drop1', 'dropk', 'drop_volume', 'drop_position', 'duplicate', 'misfiled_dup',
            'tie_straddle', 'gap', 'gap', 'rows', 'cols', 'spacing_lo', 'spacing_hi', 'orient_lo', 'orient_hi',
-           'nopix', 'collide', 'missing_key', 'extra_position', 'vec_uneven']
+           'nopix', 'collide', 'missing_key', 'extra_position', 'vec_uneven', 'bad_ordinate']
 
 
 def apply_defect(rng, cfg, files, defect):
@@ -680,6 +697,20 @@ def apply_defect(rng, cfg, files, defect):
         base = [g for g in files if g['cell'][0] == 0][0] if [g for g in files if g['cell'][0] == 0] else files[0]
         f['ipp'] = [base['ipp'][i] + off * nrm[i] for i in range(3)]
         files.append(f)
+    elif defect == 'bad_ordinate':
+        # explicit time order with abs_ordering: one more file, at a new slice position, whose value is not in the list
+        o = cfg['time_order']
+        if o is not None and o.get('abs') is not None:
+            f = copy.deepcopy(files[pick()])
+            nrm = normal_of(ORIENTS[cfg['orient']])
+            off = cfg['direction'] * cfg['gap'] * (S + 1)
+            base = [g for g in files if g['cell'][0] == 0][0]
+            f['ipp'] = [base['ipp'][i] + off * nrm[i] for i in range(3)]
+            f['tags'] = dict(f['tags'])
+            f['tags'][o['key']] = tag_value(o['key'], 97)
+            if 'RepetitionTime' in cfg['consts']:
+                f['tags']['RepetitionTime'] = 750.0
+            files.append(f)
     elif defect == 'vec_uneven':
         if cfg['vector_order'] is not None and V >= 2:
             key = cfg['vector_order']['key']
